@@ -250,6 +250,123 @@ def generate(
     return result
 
 
+def generate_model(
+    text: str, base: pathlib.Path, targets: Sequence[str] = tuple(TARGETS)
+) -> Dict[str, Dict[str, Any]]:
+    """Generate ``targets`` for the complete meta-model ``text`` (snippet sets of ``harness.mm``).
+
+    Same result as :func:`generate`; ``{}`` if the front end rejects the model.
+    """
+    from harness import mm
+
+    base = pathlib.Path(base)
+    base.mkdir(parents=True, exist_ok=True)
+    loaded = mm.load(text)
+    if loaded.crash is not None:
+        return {t: {"rc": loaded.crash, "stderr": loaded.traceback or "", "out": base / ("out_" + t)} for t in targets}
+    if not loaded.ok:
+        return {}
+    result: Dict[str, Dict[str, Any]] = {}
+    for target in targets:
+        out = base / ("out_" + target)
+        if out.exists():
+            shutil.rmtree(out)
+        out.mkdir()
+        r = mm.generate(target, text, out, symbol_table=loaded.symbol_table, cache_dir=base / "tmp")
+        rc: Any = r.rc if r.exception is None else r.exception
+        result[target] = {"rc": rc, "stderr": r.stderr + (r.traceback or "")[-2000:], "out": out}
+    return result
+
+
+_MODEL_HEADER = '''\
+from enum import Enum
+from re import match
+from typing import List, Optional, Set
+
+from icontract import invariant, DBC
+
+from aas_core_meta.marker import (
+    abstract,
+    serialization,
+    implementation_specific,
+    verification,
+    constant_set,
+    non_mutating,
+)
+
+__version__ = "V0.1"
+
+__xml_namespace__ = "https://example.com/aasv/0/1"
+
+'''
+
+
+def _shape_models() -> List[Tuple[str, str]]:
+    """Small complete meta-models (seed independent) whose *structure* selects the branches of the code emitters.
+
+    The nasty descriptions go through one fixed model; these models vary what the fixed model holds constant.
+    """
+    r: List[Tuple[str, str]] = []
+
+    def cls(name: str, parent: Optional[str], parent_args: Sequence[str], own: Sequence[Tuple[str, str]], abstract: bool = False) -> str:
+        """A class whose constructor passes ``parent_args`` on and assigns its ``own`` properties."""
+        lines = (["@abstract"] if abstract else []) + [f"class {name}({parent or 'DBC'}):", f'    """Represent {name}."""', ""]
+        for prop, anno in own:
+            lines += [f"    {prop}: {anno}", f'    """Hold {prop}."""', ""]
+        inherited = {"text": "str", "amount": "int"}
+        args = [f"{a}: {inherited[a]}" for a in parent_args]
+        args += [f"{prop}: {anno}" + (" = None" if anno.startswith("Optional") else "") for prop, anno in own]
+        lines.append("    def __init__(" + ", ".join(["self"] + args) + ") -> None:")
+        body = []
+        if parent is not None:
+            body.append(f"        {parent}.__init__(" + ", ".join(["self"] + list(parent_args)) + ")")
+        body += [f"        self.{prop} = {prop}" for prop, _ in own]
+        lines += body or ["        pass"]
+        return "\n".join(lines) + "\n\n\n"
+
+    # Constructors: {0, 1, 2, 3} own arguments x {no parent, parent without arguments, parent with 1 / 2 arguments};
+    # the header of a constructor and the call to the parent are emitted by separate if-chains over these counts.
+    r.append(
+        (
+            "constructor-shapes",
+            _MODEL_HEADER
+            + cls("Parent_without_args", None, [], [], abstract=True)
+            + cls("Child_without_args", "Parent_without_args", [], [])
+            + cls("Child_with_one_own", "Parent_without_args", [], [("val", "str")])
+            + cls("Child_with_two_own", "Parent_without_args", [], [("val", "str"), ("kind", "Optional[int]")])
+            + cls("Parent_with_one_arg", None, [], [("text", "str")], abstract=True)
+            + cls("Child_passing_one_on", "Parent_with_one_arg", ["text"], [])
+            + cls("Child_with_one_more", "Parent_with_one_arg", ["text"], [("flag", "bool")])
+            + cls("Parent_with_two_args", "Parent_with_one_arg", ["text"], [("amount", "int")], abstract=True)
+            + cls("Child_passing_two_on", "Parent_with_two_args", ["text", "amount"], [])
+            + cls(
+                "Child_with_three_more", "Parent_with_two_args", ["text", "amount"],
+                [("flag", "bool"), ("children", "Optional[List[Child_without_args]]"), ("data", "Optional[bytearray]")],
+            )
+            + 'class Without_constructor(DBC):\n    """Represent nothing."""\n',
+        )
+    )
+    # Bodies at their smallest: enumeration with a single literal and without literals, class and abstract class without properties, a class
+    # holding only an optional property, a constrained primitive without invariants
+    r.append(
+        (
+            "smallest-bodies",
+            _MODEL_HEADER
+            + 'class Kind(Enum):\n    """Represent a kind."""\n\n    Only = "only"\n\n\n'
+            + 'class Empty_kind(Enum):\n    """Represent no kind at all."""\n\n\n'
+            + 'class Code(str, DBC):\n    """Represent a code."""\n\n\n'
+            + '@abstract\n@serialization(with_model_type=True)\nclass Abstract_nothing(DBC):\n    """Represent nothing abstractly."""\n\n\n'
+            + 'class Nothing(Abstract_nothing):\n    """Represent nothing."""\n\n\n'
+            + cls("Hardly_something", None, [], [("kind", "Optional[Kind]")])
+            + cls("Holder", None, [], [("nothing", "Abstract_nothing"), ("code", "Code"), ("codes", "Optional[List[Hardly_something]]")]),
+        )
+    )
+    return r
+
+
+SHAPE_MODELS: List[Tuple[str, str]] = _shape_models()
+
+
 # ---------------------------------------------------------------------------------------
 # Balance lexer
 # ---------------------------------------------------------------------------------------
@@ -1318,6 +1435,12 @@ def _nasty() -> List[Tuple[str, str]]:
     add("rejected-strong", "A **strong** word is not implemented.")
     add("ctrl-0085-spaced", "Next line \x85 here.")
     # endregion
+
+    # region Where the renderers (not the comment wrappers) have to decide
+    add("backtick-in-literal", "Use ``a`b`` and ``c```, here.")
+    add("ends-vt", "Summarize something. \x0b")
+    add("ends-ff-after-remark", "Summarize something.\n\nRemark on it \x0c")
+    # endregion
     return r
 
 
@@ -1338,12 +1461,10 @@ NASTY_QUICK_NAMES = [
 NASTY_QUICK: List[Tuple[str, str]] = [(nm, d) for nm, d in NASTY if nm in set(NASTY_QUICK_NAMES)]
 assert len(NASTY_QUICK) == len(NASTY_QUICK_NAMES), "unknown name in NASTY_QUICK_NAMES"
 
-#: Accepted by the front end, but five generators crash on it by design
-#: (``assert "`" not in text`` in ``transform_literal`` of python / java / typescript / golang / cpp
-#: ``description.py``); kept out of :py:data:`NASTY`.
-NASTY_CRASHING: List[Tuple[str, str]] = [
-    ("backtick-in-literal", "Use ``a`b`` and ``c```, here."),
-]
+#: Kept for the command line of this module (``--crashing``): the texts on which generators used to crash by design
+#: (``assert "`" not in text`` in ``transform_literal`` of python / java / typescript / golang / cpp ``description.py``);
+#: they are ordinary members of :py:data:`NASTY` now (the generators have to report an error or render them).
+NASTY_CRASHING: List[Tuple[str, str]] = [(nm, d) for nm, d in NASTY if nm == "backtick-in-literal"]
 
 
 # ---------------------------------------------------------------------------------------
@@ -1458,19 +1579,25 @@ def run(ctx: Any, descs: Iterable[Tuple[str, str]], use_compilers: bool) -> None
             base = scratch / ("d%04d" % index)
             if base.exists():
                 shutil.rmtree(base)
+            # An item is either a description for the fixed model or ``{"model": <complete meta-model>}``.
+            model_text = desc["model"] if isinstance(desc, dict) else None
             entry: Dict[str, Any] = {"name": name, "desc": desc, "base": base, "accepted": False}
+            entry["key"] = {"model": model_text, "name": name} if model_text is not None else {"desc": desc}
             entries.append(entry)
 
             # region Generate
             started = time.time()
-            # Fall back to the variants with the description at fewer positions if the front end
-            # rejects the description at some position.
             res: Dict[str, Dict[str, Any]] = {}
             variant = 0
-            for variant in VARIANTS:
-                res = generate(desc, base, TARGETS, variant=variant)
-                if any(r["rc"] == 0 or isinstance(r["rc"], str) for r in res.values()):
-                    break
+            if model_text is not None:
+                res = generate_model(model_text, base, TARGETS)
+            else:
+                # Fall back to the variants with the description at fewer positions if the front end
+                # rejects the description at some position.
+                for variant in VARIANTS:
+                    res = generate(desc, base, TARGETS, variant=variant)
+                    if any(r["rc"] == 0 or isinstance(r["rc"], str) for r in res.values()):
+                        break
             entry["variant"] = variant
             t_generate += time.time() - started
             # endregion
@@ -1480,19 +1607,19 @@ def run(ctx: Any, descs: Iterable[Tuple[str, str]], use_compilers: bool) -> None
                 if isinstance(r["rc"], str):
                     crashed = True
                     ctx.fail(
-                        {"desc": desc, "target": target, "file": None, "variant": variant},
+                        dict(entry["key"], target=target, file=None, variant=variant),
                         "generation crashed: %s" % r["stderr"][-600:],
                         "C20:generate-crash:%s:%s" % (target, r["rc"].split(":", 1)[1]),
                     )
             if not any(r["rc"] == 0 for r in res.values()):
                 if not crashed:
                     ctx.hit("rejected-by-front-end")
-                ctx.count((name, desc), nontrivial=True, stream="whole-file")
+                ctx.count((name, model_text or desc), nontrivial=True, stream="whole-file")
                 shutil.rmtree(base, ignore_errors=True)
                 continue
             entry["accepted"] = True
             ctx.hit("accepted")
-            ctx.hit("accepted-variant-%d" % variant)
+            ctx.hit("accepted-variant-%d" % variant if model_text is None else "accepted-shape-model")
 
             # region Judge in-process
             started = time.time()
@@ -1504,7 +1631,7 @@ def run(ctx: Any, descs: Iterable[Tuple[str, str]], use_compilers: bool) -> None
                 entry["problems"][target] = check_tree(
                     target, r["out"], base / ("work_" + target), use_compilers=False
                 )
-                if target in baseline:
+                if target in baseline and model_text is None:
                     entry["problems"][target].extend(
                         skeleton_problems(target, r["out"], baseline[target])
                     )
@@ -1542,17 +1669,12 @@ def run(ctx: Any, descs: Iterable[Tuple[str, str]], use_compilers: bool) -> None
                     problems = problems + java_problems.get(index, [])
                 for problem in problems:
                     ctx.fail(
-                        {
-                            "desc": entry["desc"],
-                            "target": target,
-                            "file": problem["file"],
-                            "variant": entry["variant"],
-                        },
+                        dict(entry["key"], target=target, file=problem["file"], variant=entry["variant"]),
                         problem["what"],
                         problem["sig"],
                     )
             ctx.hit("files-checked", entry["checked"])
-            ctx.count((entry["name"], entry["desc"]), nontrivial=True, stream="whole-file")
+            ctx.count((entry["name"], json.dumps(entry["key"], sort_keys=True)), nontrivial=True, stream="whole-file")
             shutil.rmtree(entry["base"], ignore_errors=True)
     finally:
         if owned:
